@@ -19,6 +19,9 @@ Contract (every clause is a sentence of the property statement), checked on the 
                     quantified assignments could not be made at all)
   observed twice: through Ombott.__call__ (status line, Allow header, which handler ran; verb spelled as the case says,
   so case-insensitivity of the request side is exercised) and through RadiRouter.resolve(path, candidates).
+  Route HOOKS (app.on_route / app.remove_route_hook) are not methods of a route: history ops `hook` / `unhook` install and
+  remove a hook on exactly a route's rule, on a parent or child rule, or on a rule no route has; the model table does not
+  move, so every clause above must hold unchanged after each of them (a hook-only rule is no route: 404).
   Route selection itself comes from the independent oracle spec/route_spec.select (rule sets are kept to shapes on which
   selection is unambiguous; paths never contain CR - that is C01's business).  Handler kwargs are NOT compared (C01).
 """
@@ -45,7 +48,13 @@ BOUND = ('routes /r and /r/:x: all 32x32 assignments of subsets of {GET,POST,HEA
          'lower/mixed-case spellings, "" and ANY) x all probe paths; (forward) a handler serves the app again with '
          'dict(request.environ) (or a fresh environ) whose REQUEST_METHOD and PATH_INFO are rewritten: <=4 arrivals of '
          '{POST,GET,head,put,DELETE} x all probe paths x 12 target verbs; on /r,/r/:x 32x4 + 32 tables and every second '
-         'follow-up history, on the 8 other rule sets 8x8 tables, plus 120 seeded random rule sets/histories (thorough 3000)')
+         'follow-up history, on the 8 other rule sets 8x8 tables, plus 120 seeded random rule sets/histories (thorough 3000); '
+         'ROUTE HOOKS in the history (on_route / remove_route_hook, function and decorator form; the tables must not move): '
+         'on each of the 9 rule sets x 6 table pairs x every hook target (each rule of the set = exactly a route\'s rule, '
+         'plus 3..4 parent / child / sibling / route-less rules) x {install+remove after the routes, install before the '
+         'routes, install twice + remove twice, remove a hook never installed, install - remove or overwrite a method - '
+         'remove}, every ordered pair of targets (install both, remove both in either order), all probes after every hook op; '
+         'plus 150 seeded random histories (thorough 3000) with 1..3 install/remove pairs at random places')
 NONTRIVIAL_RULE = ('distinct (rules, history, paths); non-trivial = at least one route has a non-empty table and at least one '
                    'probe path selects a route')
 
@@ -89,6 +98,28 @@ def _rule_sets():
 
 
 RULE_SETS = _rule_sets()
+
+
+def _hook_extras():
+    """Per rule set: rules that are NOT routes of the set but parents / children / siblings of its rules in the tree
+    (targets of route hooks), and probe paths that match them (must stay 404 / go on selecting the set's routes)."""
+    x, n, h = W('x'), W('n', 'int'), W('h')
+    return {
+        'two': dict(rules=[R('/'), R('/r/', x, '/w'), R('/rr'), R('/q')], paths=['/rr/v', '/r/v/w/z']),
+        'litwild': dict(rules=[R('/a'), R('/a/b/c'), R('/a/', x, '/c'), R('/')], paths=['/a/c/c', '/a/b/c/d']),
+        'alias': dict(rules=[R('/a'), R('/a/', h), R('/a/', x, '/w'), R('/b')], paths=['/b', '/a/v/w/z']),
+        'root': dict(rules=[R('/a'), R('/a/b'), R('/b')], paths=['/b', '/a/b/c']),
+        'int': dict(rules=[R('/a'), R('/a/', n, '/b/c'), R('/a/7'), R('/')], paths=['/a/7/b/c', '/a/-7']),
+        'inseg': dict(rules=[R('/a'), R('/a', x, '/b/c'), R('/ab'), R('/')], paths=['/ab/b/c', '/ac']),
+        'three': dict(rules=[R('/a'), R('/ab/', x, '/d'), R('/abcd'), R('/abd')], paths=['/ab/c/d', '/ab/']),
+        'prefix': dict(rules=[R('/a/b'), R('/a'), R('/a/b/c/e'), R('/a/b/', x)], paths=['/a/b/c/e', '/a/b/e']),
+        'uni': dict(rules=[R('/\xe9/\xe9'), R('/'), R('/\xe9/', x, '/\xe9'), R('/e')], paths=['/\xe9/e', '/\xe9/\xe9/\xe9/e']),
+    }
+
+
+HOOK_EXTRAS = _hook_extras()
+HOOK_TABLES = [[['GET', 'POST'], ['GET']], [['GET'], ['POST']], [['ANY'], []], [[], ['GET']],
+               [['HEAD', 'ANY'], ['POST', 'put']], [['GET', 'POST', 'HEAD'], ['ANY']]]
 
 
 def _subsets(items):
@@ -212,6 +243,63 @@ def _gen_cases(tier, seed):
     # D: rewritten verbs - before_request method override and internal forwards
     for c in _rewrite_cases(tier, seed):
         yield c
+    # E: route hooks installed and removed in the history
+    for c in _hook_cases(tier, seed):
+        yield c
+
+
+def _hook_case(rs, ops, flavours=None):
+    d, e = RULE_SETS[rs], HOOK_EXTRAS[rs]
+    c = _case(rs, ops, flavours, paths=d['paths'] + [q for q in e['paths'] if q not in d['paths']], each=2)
+    fl0 = c['rules'][0][1]
+    c['hook_rules'] = [[r, fl0] for r in e['rules']]
+    return c
+
+
+def _hook_cases(tier, seed):
+    vias = ['router', 'app', 'deco', 'short']
+    k = 0
+    for rs, d in RULE_SETS.items():
+        nr = len(d['rules'])
+        targets = list(range(nr + len(HOOK_EXTRAS[rs]['rules'])))
+        for ti, tabs in enumerate(HOOK_TABLES):
+            tabs = tabs + ([['put']] if nr == 3 else [])
+            for t in targets:
+                k += 1
+                fl = [S.FLAVOURS[(k + i) % 3] for i in range(nr)]
+                base = []
+                for ri in range(nr):
+                    base += _base_ops(ri, tabs[ri], vias[(k + ri) % 4])
+                how = ['func', 'deco', 'router'][k % 3]
+                hk, un = ['hook', t, how], ['unhook', t, 'router' if how == 'router' else 'app']
+                yield _hook_case(rs, base + [hk, un], fl)                         # the seeded scenario: on, off
+                yield _hook_case(rs, [hk] + base + [un], fl)                      # hook first, routes later
+                yield _hook_case(rs, base + [hk, ['hook', t, 'func'], un, un], fl)   # two hooks on one rule; second removal finds none
+                yield _hook_case(rs, base + [un], fl)                             # removal of a hook that was never installed
+                ri = k % nr
+                m = (tabs[ri] or ['GET'])[0]
+                mid = [['rm', ri, m.upper(), 'route']] if k % 2 else [['add', ri, [m], _hid(ri, m, '+ow'), 1, 'app']]
+                yield _hook_case(rs, base + [hk] + mid + [un], fl)
+                yield _hook_case(rs, base + [hk, un, ['add', ri, ['delete'], _hid(ri, 'DELETE', '+new'), 0, 'router']], fl)
+        # two hooks on different rules (a route's rule and its parent / child / sibling), removed in either order
+        tabs = HOOK_TABLES[0] + ([['put']] if nr == 3 else [])
+        base = []
+        for ri in range(nr):
+            base += _base_ops(ri, tabs[ri])
+        for t, u in itertools.permutations(targets, 2):
+            k += 1
+            ops = base + [['hook', t, 'func'], ['hook', u, 'deco'], ['unhook', t, 'app'], ['unhook', u, 'app']]
+            yield _hook_case(rs, ops, [S.FLAVOURS[k % 3]] * nr)
+    # seeded random histories with hooks put in
+    rnd = random.Random(seed * 7919 + 11)
+    for c in _random_cases(random.Random(seed * 7919 + 9), 150 if tier == 'quick' else 3000):
+        ops = list(c['ops'])
+        for _j in range(rnd.randrange(1, 4)):
+            t = rnd.randrange(len(c['rules']))
+            i = rnd.randrange(len(ops) + 1)
+            ops.insert(i, ['hook', t, rnd.choice(['func', 'deco', 'router'])])
+            ops.insert(rnd.randrange(i + 1, len(ops) + 1), ['unhook', t, rnd.choice(['app', 'router'])])
+        yield dict(c, ops=ops, each=2, hook_rules=[])
 
 
 def _random_cases(rnd, count):
@@ -338,6 +426,20 @@ def _apply_op(app, op, step, texts, toks, tables, handlers, new_handler):
                     t[m.upper()] = hid
             elif ok_here:
                 return fail('K0.accept', op=op, error=err, after_op=step)
+    elif op[0] in ('hook', 'unhook'):
+        # route hooks are no methods: the model table stays as it is.  A refused installation / removal changes nothing.
+        _, ti, how = op
+        try:
+            if op[0] == 'unhook':
+                (app.router.remove_hook if how == 'router' else app.remove_route_hook)(texts[ti])
+            elif how == 'deco':
+                app.on_route(texts[ti])(lambda *a, **kw: None)
+            elif how == 'router':
+                app.router.add_hook(texts[ti], lambda *a, **kw: None)
+            else:
+                app.on_route(texts[ti], lambda *a, **kw: None)
+        except Exception:  # noqa - the statement does not say which hook rules are accepted
+            pass
     else:
         _, ri, m, via = op
         route = app.router[{texts[ri]}]
@@ -366,6 +468,7 @@ def run_case(case):
     log = []
     rules = [r for r, _f in case['rules']]
     texts = [S.render(r, f) for r, f in case['rules']]
+    texts += [S.render(r, f) for r, f in case.get('hook_rules', [])]      # hook targets that are no rules of the set
     toks = [S.tokens(r) for r in rules]
     handlers = {}
     tables = {}         # pattern -> {METHOD: hid}; a pattern is present once a route was created for it
@@ -374,7 +477,10 @@ def run_case(case):
         f = _apply_op(app, op, step, texts, toks, tables, handlers, lambda hid: RC.make_handler(hid, log))
         if f:
             return f
-        if case.get('each') or step == nops - 1:
+        each = case.get('each')
+        if each == 2:                        # histories with hooks: every probe after every hook op
+            each = op[0] in ('hook', 'unhook')
+        if each or step == nops - 1:
             f = _check_state(app, log, rules, toks, tables, case['paths'], step)
             if f:
                 return f
